@@ -1,7 +1,7 @@
 # C12 (riders C02, C05, C19): objects as string-keyed maps with deterministic key order.  Histories of insert / overwrite /
 # op-assign / read through `.k` and `["k"]`; operation and key of every step are chosen by symbolic selectors.
 import itertools
-KEYS = ['a', 'b', 'A', '', ' x', '_']
+KEYS = ['a', 'B', 'A', '', ' x', '_', 'b']
 
 def ladder(sel, options, indent=''):
     out = []
@@ -53,6 +53,8 @@ def templates(tier, seed=0):
     ts.append({'name': 'spread-copy', 'src': 'base := {"a": @h10@, "b": @h11@}\ncopy := {base..}\nprint(copy === base)\ncopy["c"] = @h12@\ncopy.a += 10\nprint(base)\nprint(copy)\nc2 := {base.., "a": 0}\nc2.b = 1\nprint(base)\nempty := {}\ne2 := {empty..}\ne2.x = 1\nprint(empty)\nprint(e2 === empty)\n'})
     # key and value expressions that read the object being written
     ts.append({'name': 'self-key', 'src': 'o := {"cur": "a", "a": @h10@, "b": 2}\nif @b0@ {\n    o[o.cur] = @h11@\n} else {\n    o[o["cur"]] += 1\n}\no[o.cur + "2"] = o.a\nfn key() {\n    return o.cur\n}\no[key()] += 1\no.b = o.a + o["b"]\no[o.cur] = o\nprint(o.b)\nprint(o.a2)\nprint(o.a === o)\n'})
+    # a property whose value is null is present
+    ts.append({'name': 'null-valued', 'src': 'o := {"gap": null, "B": 1, "a": 2, "C": 3, "b": 4}\nprint(o.gap)\nprint(o["gap"])\nk := "gap"\nprint(o[k])\no["n2"] = null\nprint(o["n2"])\nprint(o.n2)\nfor [k2, v2] in o {\n    print(k2)\n}\nprint(o)\n{gap, "n2": z} := o\nprint(gap)\nprint(z)\nprint(o == {"gap": null, "B": 1, "a": 2, "C": 3, "b": 4, "n2": null})\nif @b0@ {\n    print(o["missing"])\n}\n'})
     # computed names must be strings
     ts.append({'name': 'computed-name', 'src': 'n := "x"\nif @b0@ {\n    n = 1\n}\nprint({n: 2})\n'})
     return ts
